@@ -58,8 +58,8 @@ JMax(dirs) == LET zs == {dirs[i].z : i \in {j \in 1..Len(dirs) : dirs[j].k \in {
               IN IF zs = {} THEN -719162 ELSE CHOOSE z \in zs : \A y \in zs : z >= y
 
 \* the report window: --from/--to clipped to the journal's own period
-WinS(case, dirs) == Max(case.flags.from, JMin(dirs))
-WinE(case, dirs) == Min(case.flags.to, JMax(dirs))
+WinS(case, dirs) == Max2(case.flags.from, JMin(dirs))
+WinE(case, dirs) == Min2(case.flags.to, JMax(dirs))
 Periods(case, dirs) == Partition(WinS(case, dirs), WinE(case, dirs), case.flags.iv, case.flags.last)
 
 \* day records in processing order; CloseAccounts creates the period-start days
